@@ -45,7 +45,7 @@ def gen_cfg(rng, prop, tier):
     menu = rng.choice((("HNode",), ("HAny",), ("HNode", "HAny", "HMix"), ("HLight",), ("HLightDict",),
                        ("HNodeBag",), ("HNodeNo",), ("HLightNo", "HLight"), ("HNodeEq",), ("PNode",), ("PAny",), ("PNode", "PAny"),
                        ("HNode", "HSym"), ("HAny", "HSym"), ("PAny", "PSym"), ("HAny", "HNode", "HSymMix"),
-                       ("HNodeUnhash",), ("HNodeUnhash", "HNode"), ("HLightBag",), ("HLightEq",), ("HMixProxy",)))
+                       ("HNodeUnhash",), ("HNodeUnhash", "HNode"), ("HLightBag",), ("HLightEq",), ("HMixWords",)))
     cfg["menu"] = list(menu)
     cfg["family"] = FAMILY[menu[0]]
     cfg["classes"] = [rng.choice(menu) if i else menu[0] for i, _ in enumerate(cfg["classes"])]
